@@ -121,6 +121,19 @@ func runC03(r *simrt.Run) {
 				}
 			}
 		}
+		// the contract receives the judged node itself would generate for the heads of its inboxes
+		// (non-empty when the producer lost its pool in a restart and the calls wait across momentums)
+		for _, c := range types.EmbeddedContracts {
+			if hd := inboxHead(f, c); hd != nil {
+				func() {
+					defer func() { recover() }()
+					if ex, err := f.Sup.GenerateAutoReceive(hd); err == nil && ex != nil && ex.Transaction != nil {
+						out = append(out, ex.Transaction.Block)
+						r.Probe("candidate-from-waiting-inbox")
+					}
+				}()
+			}
+		}
 		// blocks of every kind that P already holds (pooled or recently confirmed), incl. contract receives with descendants
 		pool := p.Chain.GetAllUncommittedAccountBlocks()
 		sortBlocks(pool)
@@ -183,6 +196,14 @@ func runC03(r *simrt.Run) {
 			}
 			w.StepSlot()
 			w.Net.Flush()
+			if t.Choose(10) == 0 {
+				// the producer restarts right after its slot: the contract receives it had pooled are
+				// lost and are regenerated only after the next momentum, so calls wait across momentums
+				r.Fault("restart-producer-after-slot")
+				if err := p.Restart(false); err != nil {
+					r.Fail("restart", "open", "%v", err)
+				}
+			}
 		})
 	}
 	r.Probes["candidates-tried"] += tried
